@@ -54,3 +54,33 @@ Lemma https_middleware_pinned_refuted :
     serve Z.eqb (build_table (config_of Z.eqb calls) (https_configured_mw_pinned (Some f))) m p
     <> expected Z.eqb calls (Some f) m p.
 Proof. exists [(mGET, 1, 7)], (fun h => h + 100), mGET, 1. vm_compute. intros E; discriminate E. Qed.
+
+(* F13d: ResponseWriterWrapper (LogResponse) does not implement http.Flusher, so a handler that flushes when its
+   writer can - `if f, ok := w.(http.Flusher); ok { f.Flush() }` - flushes without the middleware and does not
+   flush behind it.  Flush commits the header (implicit 200): "flush; WriteHeader(404)" gives the client 200
+   without LogResponse and 404 with it. *)
+Definition wrap_writer_pinned (id : nat) (w : writer) : writer :=
+  {| wr_set := wr_set (wrap_writer id w); wr_hdr := wr_hdr (wrap_writer id w);
+     wr_status := wr_status (wrap_writer id w); wr_write := wr_write (wrap_writer id w);
+     wr_flush := fun s => s |}.                                  (* the type assertion fails: nothing happens *)
+Definition log_response_pinned : middleware := fun next w s =>
+  let id := length (w_cells s) in
+  let s1 := set_cells (w_cells s ++ [(200%Z, [])]) s in
+  let s2 := next (wrap_writer_pinned id w) s1 in
+  let '(st, b) := cell_get id s2 in
+  logev (ELogResp (q_method (w_req s2)) (q_path (w_req s2)) st b) s2.
+
+Definition flush_then_404 : hprog := HFlush (HStatus 404 (HWrite [120] HDone)).
+Definition q_get : reqst := {| q_method := 0; q_path := 1; q_hdr := []; q_body := [] |}.
+
+Lemma log_response_pinned_refuted :
+  exists (p : hprog) (q : reqst),
+    client_view (finish (log_response_pinned (run_h p) base (init_world q)))
+    <> client_view (finish (run_h p base (init_world q))).
+Proof. exists flush_then_404, q_get. vm_compute. intros E; discriminate E. Qed.
+
+Lemma log_response_fixed_on_witness :
+  client_view (finish (log_response (run_h flush_then_404) base (init_world q_get)))
+  = client_view (finish (run_h flush_then_404 base (init_world q_get)))
+  /\ client_view (finish (run_h flush_then_404 base (init_world q_get))) = (Some (200, []), [120], []).
+Proof. vm_compute. split; reflexivity. Qed.
